@@ -272,6 +272,13 @@ def isolation_violations(job, res):
             rate = job["spec"]["nodes"][n]["rate"]
             if st["seq"] and not (0.0 <= st["ts_start"][0] <= nr["phase"] + 4.0 / rate + 0.05):
                 v.append(("episode-first-ts", (n, st["ts_start"][0], "phase", nr["phase"])))
+            if st["seq"] and job.get("clock", "SIM") == "WALL":
+                # wall clock: the first step also *ends* within its (scripted) duration of the episode's time 0; time spent
+                # before the episode started (start-up hooks) is not episode time
+                comp = job["spec"]["nodes"][n]["comp"]
+                dur = max([comp["nominal"]] + list(comp.get("script", []))) / 64.0
+                if st["ts_end"][0] > nr["phase"] + 4.0 / rate + 0.05 + 2 * dur:
+                    v.append(("episode-first-step-ends-late", (n, st["ts_end"][0], "phase", nr["phase"], "duration", dur)))
             if any(e != st["eps"][0] for e in st["eps"]):
                 v.append(("episode-eps-mixed", (n, st["eps"])))
             for o, ms in nr["inputs"].items():
